@@ -186,6 +186,33 @@ impl ToTokens for TraitVisibility<'_> {
                             push_tokens!(stream, syn::token::Super::default());
                         });
                     }
+                    // A visibility relative to where the attribute is written
+                    // is one `super` further away from inside the module:
+                    syn::Visibility::Restricted(restricted)
+                        if restricted.path.is_ident("self")
+                            || restricted.path.is_ident("super")
+                            || restricted
+                                .path
+                                .segments
+                                .first()
+                                .map(|segment| segment.ident == "super")
+                                .unwrap_or(false) =>
+                    {
+                        push_tokens!(stream, restricted.pub_token);
+                        restricted.paren_token.surround(stream, |stream| {
+                            push_tokens!(stream, syn::token::In::default());
+                            if restricted.path.is_ident("self") {
+                                push_tokens!(stream, syn::token::Super::default());
+                            } else {
+                                push_tokens!(
+                                    stream,
+                                    syn::token::Super::default(),
+                                    syn::token::PathSep::default(),
+                                    restricted.path
+                                );
+                            }
+                        });
+                    }
                     _ => {
                         push_tokens!(stream, self.visibility);
                     }
